@@ -344,8 +344,9 @@ func run(c *core.Ctx) {
 		bound = 3
 	}
 	n := core.NumWorkers()
-	for _, name := range order {
-		for b := 0; b <= bound; b++ {
+	completed := -1
+	for b := 0; b <= bound && !c.Expired(); b++ {
+		for _, name := range order {
 			shards := n
 			if b < 2 {
 				shards = 1
@@ -355,8 +356,14 @@ func run(c *core.Ctx) {
 			}, 20*time.Minute)
 			c.CheckShards(outs)
 		}
+		if !c.Expired() {
+			completed = b
+		}
+	}
+	for _, name := range order {
 		c.Set("distinct_outcomes_"+name, c.DistinctCount("outcomes:"+name))
 	}
+	bound = completed
 	c.Set("deviation_bound_completed", bound)
 	sch := c.Count("schedules")
 	c.Set("states", sch)
